@@ -5,6 +5,7 @@ import (
 	"fmt"
 	"math"
 	"reflect"
+	"sort"
 	"strconv"
 	"strings"
 
@@ -93,7 +94,7 @@ type pgen struct {
 	forceArm int
 }
 
-func newPgen(r *vlib.Rand) *pgen { return &pgen{r: r, budget: 12, forceArm: -1} }
+func newPgen(r *vlib.Rand) *pgen { return &pgen{r: r, budget: 8, forceArm: -1} }
 
 func (g *pgen) str() string {
 	var s string
@@ -370,7 +371,7 @@ func (g *pgen) fill(m protoreflect.Message, depth int) {
 		g.st.oneofArm++
 		chosen[oo.Fields().Get(arm).FullName()] = true
 	}
-	density := []float64{0.08, 0.25, 0.6}[g.r.Intn(3)]
+	density := []float64{0.05, 0.2, 0.5}[g.r.Intn(3)]
 	for i := 0; i < fds.Len(); i++ {
 		fd := fds.Get(i)
 		newMsg := func() protoreflect.Message { return m.NewField(fd).Message() }
@@ -444,10 +445,16 @@ func (g *pgen) fill(m protoreflect.Message, depth int) {
 	}
 	// registered extensions of the type
 	if md.ExtensionRanges().Len() > 0 && g.r.Bool() {
+		var xts []protoreflect.ExtensionType
 		protoregistry.GlobalTypes.RangeExtensionsByMessage(md.FullName(), func(xt protoreflect.ExtensionType) bool {
+			xts = append(xts, xt)
+			return true
+		})
+		sort.Slice(xts, func(i, j int) bool { return xts[i].TypeDescriptor().Number() < xts[j].TypeDescriptor().Number() })
+		for _, xt := range xts {
 			xd := xt.TypeDescriptor()
 			if !g.r.Bool() || (isMsgKind(xd) && (depth <= 0 || g.budget <= 0)) {
-				return true
+				continue
 			}
 			g.st.extensions++
 			if xd.IsList() {
@@ -455,11 +462,10 @@ func (g *pgen) fill(m protoreflect.Message, depth int) {
 				for n := g.r.Range(1, 3); n > 0; n-- {
 					l.Append(g.single(xd, func() protoreflect.Message { return l.NewElement().Message() }, depth, false))
 				}
-				return true
+				continue
 			}
 			m.Set(xd, g.single(xd, func() protoreflect.Message { return m.NewField(xd).Message() }, depth, g.r.Chance(0.2)))
-			return true
-		})
+		}
 	}
 }
 
@@ -481,29 +487,55 @@ func isZeroScalar(v protoreflect.Value) bool {
 	return false
 }
 
-// nodes lists the populated message nodes of a tree (m first), descending through singular fields, lists, maps and extensions.
+// msgNodes lists the populated message nodes of a tree (m first), descending through singular fields, lists, maps and extensions, in a
+// deterministic order: fields by number, map entries by key.
 func msgNodes(m protoreflect.Message, out *[]protoreflect.Message) {
 	*out = append(*out, m)
+	type fv struct {
+		fd protoreflect.FieldDescriptor
+		v  protoreflect.Value
+	}
+	var fs []fv
 	m.Range(func(fd protoreflect.FieldDescriptor, v protoreflect.Value) bool {
-		switch {
-		case fd.IsMap():
-			if isMsgKind(fd.MapValue()) {
-				v.Map().Range(func(_ protoreflect.MapKey, mv protoreflect.Value) bool {
-					msgNodes(mv.Message(), out)
-					return true
-				})
-			}
-		case fd.IsList():
-			if isMsgKind(fd) {
-				for i := 0; i < v.List().Len(); i++ {
-					msgNodes(v.List().Get(i).Message(), out)
-				}
-			}
-		case isMsgKind(fd):
-			msgNodes(v.Message(), out)
+		if (fd.IsMap() && isMsgKind(fd.MapValue())) || (!fd.IsMap() && isMsgKind(fd)) {
+			fs = append(fs, fv{fd, v})
 		}
 		return true
 	})
+	sort.Slice(fs, func(i, j int) bool { return fs[i].fd.Number() < fs[j].fd.Number() })
+	for _, f := range fs {
+		switch {
+		case f.fd.IsMap():
+			var ks []protoreflect.MapKey
+			f.v.Map().Range(func(k protoreflect.MapKey, _ protoreflect.Value) bool {
+				ks = append(ks, k)
+				return true
+			})
+			sort.Slice(ks, func(i, j int) bool { return mapKeyLess(ks[i], ks[j]) })
+			for _, k := range ks {
+				msgNodes(f.v.Map().Get(k).Message(), out)
+			}
+		case f.fd.IsList():
+			for i := 0; i < f.v.List().Len(); i++ {
+				msgNodes(f.v.List().Get(i).Message(), out)
+			}
+		default:
+			msgNodes(f.v.Message(), out)
+		}
+	}
+}
+
+func mapKeyLess(a, b protoreflect.MapKey) bool {
+	switch x := a.Interface().(type) {
+	case bool:
+		return !x && b.Bool()
+	case int32, int64:
+		return a.Int() < b.Int()
+	case uint32, uint64:
+		return a.Uint() < b.Uint()
+	default:
+		return a.String() < b.String()
+	}
 }
 
 // unknownCensus counts the nodes of a tree that carry unknown fields: (top-level 0/1, nested nodes).
@@ -792,10 +824,17 @@ func reportProtoStats(res *vlib.Result, p protoStats) {
 }
 
 // gogoLossy returns a copy of m without what gogo's struct-tag encoding of a google.golang.org/protobuf message leaves out: unknown
-// fields, extension fields, and the sign of a -0 in a singular float/double field without presence (gogo does not encode a scalar
-// for which `v != 0` is false) - at every node of the tree.
+// fields, extension fields and proto3 `optional bytes` fields that are present but empty, at every node of the tree. (The copy is made through the wire format: proto.Clone is not faithful, its
+// merge skips a -0 in a scalar field without presence.)
 func gogoLossy(m proto.Message) proto.Message {
-	c := proto.Clone(m)
+	b, err := proto.Marshal(m)
+	if err != nil {
+		panic(harnessBug(fmt.Sprintf("marshal of %T: %v", m, err)))
+	}
+	c := m.ProtoReflect().New().Interface()
+	if err := proto.Unmarshal(b, c); err != nil {
+		panic(harnessBug(fmt.Sprintf("unmarshal of %T: %v", m, err)))
+	}
 	var ns []protoreflect.Message
 	msgNodes(c.ProtoReflect(), &ns)
 	for _, n := range ns {
@@ -804,8 +843,8 @@ func gogoLossy(m proto.Message) proto.Message {
 		n.Range(func(fd protoreflect.FieldDescriptor, v protoreflect.Value) bool {
 			if fd.IsExtension() {
 				clear = append(clear, fd)
-			} else if (fd.Kind() == protoreflect.DoubleKind || fd.Kind() == protoreflect.FloatKind) && !fd.IsList() && !fd.IsMap() && !fd.HasPresence() && v.Float() == 0 {
-				clear = append(clear, fd)
+			} else if fd.Kind() == protoreflect.BytesKind && fd.HasOptionalKeyword() && fd.Syntax() == protoreflect.Proto3 && len(v.Bytes()) == 0 {
+				clear = append(clear, fd) // proto3 `optional bytes` present but empty: gogo predates proto3 optional and skips an empty []byte
 			}
 			return true
 		})
